@@ -97,6 +97,13 @@ def run():
     prove('MULMONO aux', z3.Implies(z3.And(e >= 0, p >= 0), e * p >= 0))
     prove('MULCANCEL', mulcancel(q_, u_, v_), z3.Implies(z3.And(q_ >= 1, u_ - v_ <= -1), q_ * (u_ - v_) <= -q_), q_ * (u_ - v_) == q_ * u_ - q_ * v_)
 
+    from contracts.window import angle_mirror
+    cr, xr, yr = z3.Reals('cr xr yr')
+    prove('ANGLE_MIRROR', angle_mirror(cr, xr, yr))
+    from contracts.window import scale_pi
+    from engine.core import PI as PI_
+    prove('SCALE_PI', scale_pi(yr, xr), PI_ > 3, PI_ < 4)
+
     # ---- powers of two: finite domain, exhaustive
     from contracts.fftplans import pow2_facts
     ok = True
